@@ -21,15 +21,26 @@ MODELLED_CBS = {"handle_offer", "_expired", "_send_start_subscribe", "_send_stop
                 "_handle_timeout"}
 
 
+# peers 4 and 5: one link-local IPv6 address and port reached through two interfaces - the socket addresses differ in the
+# scope id only; a peer is its FULL socket address (seeded m98 merged them).  Only scenarios that ask for more than three
+# peers draw them (C14).
+V6_PEERS = {4: ("fe80::1", 30490, 0, 2), 5: ("fe80::1", 30490, 0, 3)}
+
+
 def addr_of(n: int):
     """peer n as a socket address: peers 2h-1 and 2h live on the SAME host 10.0.0.h and differ in the port only (two SD
     instances on one machine) - a peer is its (host, port) pair, never the host alone"""
+    if n in V6_PEERS:
+        return V6_PEERS[n]
     return ("10.0.0.%d" % ((n + 1) // 2), 30490 + (n + 1) % 2)
 
 
 def idx_of(addr) -> str:
     if addr is None or addr == MC:
         return "~"
+    for n, a in V6_PEERS.items():
+        if tuple(addr) == a:
+            return str(n)
     h = int(addr[0].rsplit(".", 1)[1])
     return str(2 * h - 1 + (addr[1] - 30490))
 
